@@ -67,7 +67,7 @@ def run(eng, rep, tier, part=None):
             key = (where, role)
             # a private field that is a correctly invalidated cache (filled under its own test, reset by every mutator
             # that can change what it was computed from) is not abstract state: sa/rules/autocache.py
-            verdict, why = _auto_cache(eng, ev, l)
+            verdict, why = _auto_cache(eng, ev, l, chain)
             if verdict is True:
                 if key not in seen_write_keys:
                     seen_write_keys.add(key)
@@ -218,10 +218,22 @@ def _class_assigns(prog, cls_q, seg) -> bool:
     return _ASSIGNS[key]
 
 
-def _auto_cache(eng, ev, l):
+def _reset_per_call(eng, ev, field, chain):
+    """the public entry that reaches this fill re-initialises the field unconditionally at its top level before anything
+    else uses it (a per-call scratch table, not a cache across calls)"""
+    from . import autocache
+    entry = chain[0].func if chain else ev.func
+    for st_ in entry.node.body:
+        if autocache._is_reset_stmt(st_, field):
+            return True
+    return False
+
+
+def _auto_cache(eng, ev, l, chain=()):
     """(True / False / None, reason) for the field written by `ev` - see sa/rules/autocache.py"""
     from . import autocache
     from ..av import all_deps
+    from .flow import facts_on_path
     cls_q = ev.recv_cls
     if cls_q is None or cls_q not in eng.prog.classes or ev.func.cls is None:
         return None, ""
@@ -256,7 +268,38 @@ def _auto_cache(eng, ev, l):
     key = (cls_q, field, tuple(sorted(dep_fields)))
     if key not in _AUTO:
         _AUTO[key] = autocache.judge(eng.prog, eng.abstract, cls_q, field, eng.interp, dep_fields or None)
-    return _AUTO[key]
+    verdict, why = _AUTO[key]
+    if verdict is True and ev.kind == "write" and ev.value is not None:
+        # a memo must be keyed by everything its value was computed from besides the object itself: a value that
+        # depends on an argument of the query, stored under a key (or in a plain field) that does not, is served to the
+        # next call with another argument
+        def _params(av):
+            return {d[0] for d in all_deps(av) if isinstance(d, tuple) and len(d) == 2 and isinstance(d[0], str)
+                    and d[0].startswith("p:")} if av is not None else set()
+        key_params = set()
+        for a in ev.args:
+            key_params |= _params(a)
+        missing = _params(ev.value) - key_params
+        if missing and not _reset_per_call(eng, ev, field, chain):
+            return False, "the cached value depends on the argument `%s` of the query but is stored under a key that " \
+                          "does not: the next call with another argument is answered from it" % sorted(missing)[0][2:]
+    if verdict is True and len(l[1]) > idx + 1 and ev.kind == "write" and ev.wkind not in ("attr",):
+        # an update INSIDE the cached object: a fill when it happens under a test of the field itself (`if k not in
+        # self._memo:`, `if self._table is None:` - here or at a call site on the way); anywhere else the query edits
+        # what it cached, and the next call starts from the leftovers
+        guarded = False
+        for text, _pol, _names in facts_on_path(ev, chain):
+            try:
+                test = ast.parse(text, mode="eval").body
+            except SyntaxError:
+                continue
+            for c in [ev] + list(chain):
+                if getattr(c, "func", None) is not None and autocache._mentions(test, c.func.node, field):
+                    guarded = True
+        if not guarded:
+            return False, "the cached object is updated in place outside the test that fills it (`%s`): what the next " \
+                          "call finds in the cache depends on the previous calls" % ev.site.text[:60]
+    return verdict, why
 
 
 def check_cache_handover(eng, rep, summ, ename):
